@@ -94,7 +94,16 @@ func (p *Program) firstFull(name string) bool {
 	return true
 }
 
+// interpretFns are single functions of otherwise summarised packages that are executed
+// from their SSA.
+var interpretFns = map[string]bool{
+	"encoding/binary.PutUvarint": true,
+}
+
 func (p *Program) shouldInterpret(fn *ssa.Function) bool {
+	if interpretFns[fn.String()] {
+		return true
+	}
 	if fn.Pkg == nil {
 		// synthetic wrappers, bound-method closures, instantiations
 		if fn.Synthetic != "" {
@@ -392,7 +401,7 @@ func (p *Program) runPath(fn *ssa.Function, cfg *Config, w *Worker, prefix []Dec
 	x = &Exec{P: p, B: b, Cfg: cfg, prefix: prefix, W: w,
 		gl: map[*ssa.Global]*Object{}, initFr: map[*ssa.Package]*Frame{},
 		Reached: map[string]bool{}, Funcs: map[string]int{}, Summ: map[string]int{}, Assumes: map[string]int{},
-		ForkSites: map[string]int{}, SlowSites: map[string]float64{}, errIDs: map[string]int{}, lenAxiom: map[int]bool{}, pow10Of: map[int]*smt.Term{}, constMemo: map[int]*smt.Term{}, localMerge: map[string]bool{}, linked: map[int]bool{}}
+		ForkSites: map[string]int{}, SlowSites: map[string]float64{}, errIDs: map[string]int{}, lenAxiom: map[int]bool{}, pow10Of: map[int]*smt.Term{}, constMemo: map[int]*smt.Term{}, localMerge: map[string]bool{}, localSumm: map[string]bool{}, linked: map[int]bool{}}
 	if cfg.Debug && cfg.Transcript != "" {
 		f, _ := os.Create(cfg.Transcript)
 		proc.Log = f
